@@ -696,6 +696,9 @@ class Transpiler(object):
             # Call the appropriate MathML handler function for this tag
             tag_name = etree.QName(child_element.tag).localname
             if tag_name in self.handlers:
+                # Token, operator and constant elements have no child elements (their handlers never look for any)
+                if tag_name not in MATHML_CONTAINERS and child_element.find('*') is not None:
+                    raise ValueError('Unexpected child element in ' + _dump_node(child_element))
                 sympy_expressions.append(self.handlers[tag_name](child_element))
             else:
                 # MathML handler function not found for this tag!
@@ -735,6 +738,8 @@ class Transpiler(object):
                                      'Got: ' + _dump_node(node))
             else:
                 raise ValueError('Unimplemented type attribute for <cn>: ' + node.attrib['type'])
+        elif node.find('*') is not None:
+            raise ValueError('Unexpected child element in ' + _dump_node(node))
         else:
             number = float(self._number_text(node, node.text, _CN_REAL))
 
@@ -1065,6 +1070,9 @@ _CN_REAL = re.compile(_CN_DECIMAL.pattern + r'([eE][+-]?[0-9]+)?')
 
 # MathML relation elements that are n-ary operators
 MATHML_NARY_RELATIONS = {'eq', 'leq', 'lt', 'geq', 'gt'}
+
+# MathML elements that have child elements (<cn type="e-notation"> has a <sep/>)
+MATHML_CONTAINERS = {'apply', 'bvar', 'cn', 'degree', 'logbase', 'math', 'otherwise', 'piece', 'piecewise'}
 
 # MathML elements that are unary operators, mapped to Sympy classes that would accept more arguments
 MATHML_UNARY_OPERATORS = {'ln'}
